@@ -49,10 +49,23 @@ func c20Package(rng *rand.Rand, idx int) rcase {
 			}
 			o.Params = append(o.Params, dialect.Param{Name: name, In: in, Required: rng.Intn(2) == 0, Schema: sc})
 		}
-		if o.Method != "GET" && rng.Intn(2) == 0 {
+		if o.Method != "GET" && rng.Intn(3) != 0 {
 			body := g.object(2, false) // (no embedded members with additionalProperties: D28 is not this property's business)
 			if rng.Intn(2) == 0 {
 				body.Ref = g.name()
+			}
+			switch rng.Intn(3) {
+			case 0:
+				// an array component (its MarshalJSON/UnmarshalJSON are generated code of their own)
+				if body.Ref == "" {
+					body.Ref = g.name()
+				}
+				body = &JS{Kind: "arr", Inner: body, Ref: g.name()}
+			case 1:
+				body = &JS{Kind: "arr", Inner: body}
+				if body.Inner.Ref == "" {
+					body.Inner.Ref = g.name()
+				}
 			}
 			o.Body = &dialect.Body{Content: "application/json", Schema: body.Dialect(&sp.CompSchemas), Required: true}
 		}
